@@ -10,7 +10,7 @@ trap 'rm -rf "$W"' EXIT
 cd /verif
 pkg=$1; h=$2; shift; shift
 python3 /verif/mkoverlay.py "$W/ov.json" "$pkg" "$h" || exit 1
-"$W/gosymex" -overlay "$W/ov.json" -pkgs ./internal/$pkg -harness github.com/juev/hledger-lsp/internal/$pkg.$h -out "$W/r.json" -known "$KNOWN" "$@" 2>&1 | grep -v "^WARNING conda" | tail -${TAIL:-15}
+"$W/gosymex" -dir "${VERIF_REPO:-/repo}" -overlay "$W/ov.json" -pkgs ./internal/$pkg -harness github.com/juev/hledger-lsp/internal/$pkg.$h -out "$W/r.json" -known "$KNOWN" "$@" 2>&1 | grep -v "^WARNING conda" | tail -${TAIL:-15}
 [ -f "$W/r.json" ] || exit 1
 cp "$W/r.json" /verif/.work/last-$h.json
 python3 /verif/show.py "$W/r.json" ${SHOW:-8}
